@@ -457,20 +457,25 @@ def key_splits(n):
 
 def _split_interleave(L, f, b, ents, effkeys, ql, cap):
     hdr = _hdr_copy(f.lines[b.hdr])
-    for qv, q2 in (("q+1", ql + 1.0), ("q/2", ql * 0.5)):
+    oths = []
+    for qv, q2 in (("q/2", ql * 0.5), ("q+1", ql + 1.0)):
         oth = ["Block %s Q= %s   # same block at another scale, other values" % (b.name, repr(q2))]
         for key, v in sorted(effkeys.items()):
             oth.append("  %s   %s" % (" ".join("%d" % k for k in key), repr(v * 1.5 + 7.0)))
-        for where in ("between", "before+between", "between+after", "before", "after"):
-            if b.name == "HMIX" and "after" in where:
-                continue          # a later HMIX block would change the deciding scale
-            for sp in thin(key_splits(len(ents)), cap):
-                second = {ents[i] for i in sp}
-                p1 = [L[i] for i in range(b.hdr, b.end) if i not in second]
-                p2 = [hdr] + [L[i] for i in sorted(second)]
-                new = L[:b.hdr] + (oth if "before" in where else []) + p1 + (oth if "between" in where else []) \
-                    + p2 + (oth if "after" in where else []) + L[b.end:]
-                yield "%s.%s@%s" % (b.name, where, qv), (b.hdr, tuple(sorted(sp))), new
+        oths.append((qv, oth))
+    # 'before' / 'after' alone are what R12 followed by R11 gives; the block BETWEEN the pieces is the new thing
+    for where in ("between", "before+between", "between+after"):
+        if b.name == "HMIX" and "after" in where:
+            continue          # a later HMIX block would change the deciding scale
+        for j, sp in enumerate(thin(key_splits(len(ents)), cap)):
+            second = {ents[i] for i in sp}
+            p1 = [L[i] for i in range(b.hdr, b.end) if i not in second]
+            p2 = [hdr] + [L[i] for i in sorted(second)]
+            # all positions (cap None): both other scales; thinned: the two scales alternate
+            for qv, oth in (oths if cap is None else [oths[j % 2]]):
+                new = L[:b.hdr] + (oth if "before" in where else []) + p1 + oth + p2 \
+                    + (oth if "after" in where else []) + L[b.end:]
+                yield "%s.%s" % (b.name, where), (b.hdr, tuple(sorted(sp)), qv), new
 
 
 def _w_expand(task):
@@ -1178,7 +1183,7 @@ def run(ctx):
                 caps = {1: 2 if ctx.quick else 24}
                 k1s = {}
             nb[name] = bfs(ctx, pool, base, depth, caps, k1s, stats, decoy=isolated)
-    unconditional = {op: n for op, n in stats["dropped_by_model"].items() if n and op not in ("R1", "R2", "R11", "R13", "R8", "R12")}
+    unconditional = {op: n for op, n in stats["dropped_by_model"].items() if n and op not in ("R1", "R2", "R11", "R13", "R8", "R12", "R14")}
     ctx.note("states_per_base", {k: v for k, v in sorted(nb.items()) if k.startswith("input/") or k in deep_tp})
     ctx.note("bases", len(bases))
     ctx.note("candidates_dropped_because_model_says_content_changes", stats["dropped_by_model"])
